@@ -53,11 +53,25 @@ Definition resolve (keys : list hkey) (x : oraw) : obs :=
   match x with Ob op rt sh ref un => MkObs (cop_map (kof keys) op) rt sh ref un end.
 Definition ohk (x : obs) : hkey := okey hkey (oop x).
 
+(* one routing call on a key that is a window of a byte arena owned by the caller ([]byte sub-slice with spare
+   capacity, or a Bs implementer returning such a slice): which entry point (0 ToBytes, 1 XXHash, 2 SimpleIndex,
+   3 XHashIndex), the key length, the arena bytes from the key's first byte to a few bytes past its end before and
+   after the call, the hash remap.XXHash returns for the key, the call's result (index / hash; None for ToBytes) *)
+Inductive astep := AS (call klen : Z) (before after : list Z) (h : Z) (res : option Z).
+Definition as_call (a : astep) := match a with AS c _ _ _ _ _ => c end.
+Definition as_key (a : astep) : list Z := match a with AS _ l b _ _ _ => firstn (Z.to_nat l) b end.
+Definition as_before (a : astep) := match a with AS _ _ b _ _ _ => b end.
+Definition as_after (a : astep) := match a with AS _ _ _ b _ _ => b end.
+Definition as_h (a : astep) := match a with AS _ _ _ _ h _ => h end.
+Definition as_res (a : astep) := match a with AS _ _ _ _ _ r => r end.
+Definition is_index_call (c : Z) : bool := (c =? 2) || (c =? 3).
+
 Inductive ckind := KMap | KLru (tiny : bool) (cap : Z) | KLock | KSem (ratio : Z).
 
 Inductive case :=
 | CIdx (nopt : option Z) (numbs : option Z) (ps : list probe)   (* NewReMap(opts) (None = panic), Numbs(), probes *)
 | CHash (n : Z) (xs : list hprobe)                              (* SearchIndex(x) on a remap of n shards *)
+| CArena (n : Z) (steps : list astep)                              (* routing calls on keys inside a caller-owned arena *)
 | CCont (kind : ckind) (xh : bool) (n : Z) (keys : list hkey) (h : list oraw).   (* one history on a sharded container *)
 
 (* ---------------- small decision procedures ---------------- *)
@@ -204,6 +218,43 @@ Definition cont_holds (kind : ckind) (h : list obs) (n : Z) : bool :=
   && cresl_eqb (map osh h) (map oref h)
   && (if noevict_guard kind n (map oop h) then cresl_eqb (map osh h) (map oun h) else true).
 
+(* ---------------- keys inside a caller-owned arena ---------------- *)
+(* the model: routing is a pure function of the key's bytes (and their hash); nothing is written *)
+Definition arena_model (n : Z) (a : astep) : option Z :=
+  let c := as_call a in
+  if c =? 0 then None else if c =? 1 then Some (as_h a) else index (c =? 3) n (KBytes (as_key a)) (as_h a).
+Definition arena_accept (n : Z) (steps : list astep) : bool :=
+  forallb (fun a => zl_eqb (as_before a) (as_after a) && oz_eqb (arena_model n a) (as_res a)) steps
+  && pairwise (fun a b => implb (zl_eqb (as_key a) (as_key b)) (as_h a =? as_h b)) steps.
+(* the property: a routing call leaves the key's bytes and the bytes after it as they were; indices are in range;
+   the same key bytes give the same index on every call of the same entry point *)
+Definition arena_holds (n : Z) (steps : list astep) : bool :=
+  forallb (fun a => zl_eqb (as_before a) (as_after a)
+                    && (if is_index_call (as_call a) then in_range n (as_res a) else true)) steps
+  && pairwise (fun a b => implb (is_index_call (as_call a) && (as_call a =? as_call b) && zl_eqb (as_key a) (as_key b))
+                                (oz_eqb (as_res a) (as_res b))) steps.
+
+Lemma arena_sound n steps : 1 <= n -> arena_accept n steps = true -> arena_holds n steps = true.
+Proof.
+  intros Hn Ha. unfold arena_accept in Ha. apply andb_prop in Ha as [Ha Hh]. rewrite forallb_forall in Ha.
+  assert (Hm : forall a, In a steps -> zl_eqb (as_before a) (as_after a) = true /\ as_res a = arena_model n a).
+  { intros a Hin. specialize (Ha a Hin). apply andb_prop in Ha as [A B]. apply oz_eqb_eq in B. auto. }
+  unfold arena_holds. apply andb_true_intro. split.
+  - apply forallb_forall. intros a Hin. destruct (Hm a Hin) as [A B]. rewrite A. cbn [andb].
+    destruct (is_index_call (as_call a)) eqn:E; [|reflexivity]. rewrite B. unfold arena_model.
+    unfold is_index_call in E. destruct (as_call a =? 0) eqn:E0; [apply Z.eqb_eq in E0; rewrite E0 in E; discriminate|].
+    destruct (as_call a =? 1) eqn:E1; [apply Z.eqb_eq in E1; rewrite E1 in E; discriminate|].
+    destruct (index_range (as_call a =? 3) n (KBytes (as_key a)) (as_h a) Hn) as (i & -> & Hi); [destruct (as_call a =? 3); reflexivity|].
+    now apply in_range_intro.
+  - apply pairwise_intro. intros a b Hina Hinb.
+    destruct (is_index_call (as_call a) && (as_call a =? as_call b) && zl_eqb (as_key a) (as_key b)) eqn:E; [|reflexivity].
+    cbn [implb]. apply andb_prop in E as [E Ek]. apply andb_prop in E as [_ Ec]. apply Z.eqb_eq in Ec. apply zl_eqb_spec in Ek.
+    destruct (Hm a Hina) as [_ ->]. destruct (Hm b Hinb) as [_ ->].
+    unfold pairwise in Hh. rewrite forallb_forall in Hh. specialize (Hh a Hina). rewrite forallb_forall in Hh. specialize (Hh b Hinb).
+    rewrite Ek in Hh. replace (zl_eqb (as_key b) (as_key b)) with true in Hh by (symmetry; now apply zl_eqb_spec). cbn [implb] in Hh.
+    apply Z.eqb_eq in Hh. unfold arena_model. rewrite Ec, Ek, Hh. apply oz_eqb_refl.
+Qed.
+
 (* ---------------- the two functions the driver evaluates ---------------- *)
 Definition case_accept (c : case) : bool :=
   match c with
@@ -214,6 +265,7 @@ Definition case_accept (c : case) : bool :=
       | Some m => new_remap_ok n && (m =? n) && forallb (probe_accept n) ps
       end
   | CHash n xs => forallb (hash_accept n) xs
+  | CArena n steps => arena_accept n steps
   | CCont kind xh n keys h => cont_accept kind xh n (map (resolve keys) h)
   end.
 
@@ -224,6 +276,7 @@ Definition case_holds (c : case) : bool :=
       if 1 <=? n then match numbs with None => false | Some m => (m =? n) && forallb (probe_holds n) ps end
       else true
   | CHash n xs => if hash_guard n xs then hash_holds n xs else true
+  | CArena n steps => if 1 <=? n then arena_holds n steps else true
   | CCont kind xh n keys h => let h' := map (resolve keys) h in if cont_guard xh n h' then cont_holds kind h' n else true
   end.
 
@@ -291,13 +344,14 @@ Qed.
 
 Theorem case_sound : forall c, case_accept c = true -> case_holds c = true.
 Proof.
-  intros [nopt numbs ps | n xs | kind xh n keys h]; cbn [case_accept case_holds].
+  intros [nopt numbs ps | n xs | n steps | kind xh n keys h]; cbn [case_accept case_holds].
   - intros Ha. destruct (1 <=? numbs_of nopt) eqn:En; [|reflexivity]. apply Z.leb_le in En.
     destruct numbs as [m|].
     + apply andb_prop in Ha as [Ha Hps]. apply andb_prop in Ha as [_ Hm]. rewrite Hm. cbn [andb].
       apply forallb_forall. intros p Hp. rewrite forallb_forall in Hps. apply probe_sound; [exact En | now apply Hps].
     + apply andb_prop in Ha as [Ha _]. unfold new_remap_ok in Ha. rewrite negb_involutive in Ha. apply Z.eqb_eq in Ha. lia.
   - intros Ha. destruct (hash_guard n xs) eqn:G; [|reflexivity]. now apply hash_sound.
+  - intros Ha. destruct (1 <=? n) eqn:G; [|reflexivity]. apply Z.leb_le in G. now apply arena_sound.
   - intros Ha. cbv zeta. destruct (cont_guard xh n (map (resolve keys) h)) eqn:G; [|reflexivity]. exact (cont_sound kind xh n _ Ha G).
 Qed.
 
